@@ -37,7 +37,7 @@ POOLS = [
     # catalyst written on both sides (formulas as chempy's own docs write formic acid)
     (['H+', 'CH2O2', 'CHO2-', 'CO', 'H2O'], [({'H+': 1, 'CH2O2': 1}, {'H+': 1, 'CO': 1, 'H2O': 1}), ({'CH2O2': 1}, {'H+': 1, 'CHO2-': 1})]),
 ]
-SPECTATORS = ['Na+', 'Cl-', 'K+', 'NO3-', 'Ar']
+SPECTATORS = ['Na+', 'Cl-', 'K+', 'NO3-', 'Ar', 'e-']     # 'e-' is charge-only: upper_conc_bounds gives inf
 PRECIP_POOLS = [
     (['NaCl(s)', 'Na+', 'Cl-'], [({'NaCl(s)': 1}, {'Na+': 1, 'Cl-': 1})]),
     (['AgCl(s)', 'Ag+', 'Cl-'], [({'AgCl(s)': 1}, {'Ag+': 1, 'Cl-': 1})]),
@@ -223,10 +223,10 @@ def gen_abstract_system(rng, big=False):
 _cache = {}
 
 
-def build(sysspec):
-    """the real EqSystem for a system spec (cached)"""
+def build(sysspec, Ks=None):
+    """the real EqSystem for a system spec (cached); with `Ks` the reactions carry these constants (not cached)"""
     key = json.dumps(sysspec, sort_keys=True)
-    if key in _cache:
+    if Ks is None and key in _cache:
         return _cache[key]
     from chempy import Equilibrium, Species
     from chempy.equilibria import EqSystem
@@ -238,9 +238,11 @@ def build(sysspec):
             subs.append(Species(s['name'], composition={int(k): int(v) for k, v in s['comp']}, phase_idx=int(s.get('phase', 0))))
     eqs = []
     for r in sysspec['rxns']:
-        eqs.append(Equilibrium({k: v for k, v in r['reac']}, {k: v for k, v in r['prod']}, 1,
+        eqs.append(Equilibrium({k: v for k, v in r['reac']}, {k: v for k, v in r['prod']}, 1 if Ks is None else Ks[len(eqs)],
                                inact_reac={k: v for k, v in r['inact_reac']}, inact_prod={k: v for k, v in r['inact_prod']}))
     es = EqSystem(eqs, subs)
+    if Ks is not None:
+        return es
     if len(_cache) > 400:
         _cache.clear()
     _cache[key] = es
@@ -299,6 +301,66 @@ def upper_bounds(es, c0):
     return out
 
 
+def log_vector(expr):
+    """exact coordinates of a Q-linear combination of logs of positive rationals in the basis {log p : p prime}
+    (these are Q-linearly independent, so two such numbers are equal iff their vectors are); None if not of that form"""
+    import sympy as sp
+    e = sp.expand_log(expr, force=True)
+    vec = {}
+    for term in sp.Add.make_args(e):
+        if term == 0:
+            continue
+        coeff, rest = term.as_coeff_Mul()
+        if not (isinstance(rest, sp.log) and rest.args[0].is_Rational and rest.args[0] > 0 and coeff.is_Rational):
+            return None
+        a = rest.args[0]
+        for num, sign in ((int(a.p), 1), (int(a.q), -1)):
+            for pr, ex in sp.factorint(num).items():
+                vec[pr] = vec.get(pr, 0) + sp.Rational(coeff) * sign * ex
+    return {k: v for k, v in vec.items() if v != 0}
+
+
+def same_row_space(M1, M2):
+    """exact: the rows of M1 and of M2 (rational matrices, same width) span the same space  <=>
+    there are P, L with M2 = P M1 and M1 = L M2 (the hypothesis `RowEquiv` of the rref theorems)"""
+    import sympy as sp
+    if not M1 and not M2:
+        return True
+    r1 = sp.Matrix(M1).rank() if M1 else 0
+    r2 = sp.Matrix(M2).rank() if M2 else 0
+    if r1 != r2:
+        return False
+    if not M1 or not M2:
+        return r1 == 0
+    return sp.Matrix(M1 + M2).rank() == r1
+
+
+def augmented_with_logs(A, log_exprs):
+    """[A | coordinates of the log column]; None when a log expression is not a rational combination of prime logs"""
+    import sympy as sp
+    vecs = [log_vector(e) for e in log_exprs]
+    if any(v is None for v in vecs):
+        return None
+    primes = sorted({p for v in vecs for p in v})
+    return [[sp.Rational(x) for x in row] + [v.get(p, 0) for p in primes] for row, v in zip(A, vecs)], primes
+
+
+def captured_solver_params(es, init):
+    """the parameter vector EqSystem.root really hands to the solver (captured with a stand-in solver object)"""
+    import numpy as np
+    box = {}
+
+    class Capture:
+        def solve(self, x0, params, **kw):
+            box['params'] = [float(v) for v in params]
+            return np.asarray(x0, dtype=float), {'success': True}
+    import warnings
+    with warnings.catch_warnings():
+        warnings.simplefilter('ignore')
+        es.root([float(v) for v in init], neqsys=Capture())
+    return box['params']
+
+
 def has_repeated_species(sysspec):
     """some reaction writes a species in more than one of its four dicts (both sides, or active and inactive)"""
     for r in sysspec['rxns']:
@@ -339,16 +401,35 @@ class C07(Property):
             'Non-trivial: distinct JSON value with at least one reaction.')
     assumptions = ('integer stoichiometric coefficients and composition counts; species with a composition dict',
                    'shapes len(y) = ns, len(params) = ns + nr; new_eq_params = True',
-                   'rref_equil / rref_preserv = True (sympy row reduction) only validated per instance: zero at planted equilibria, '
-                   'non-zero at planted violations, equation count = rank-based',
+                   'rref_equil / rref_preserv = True: the reducer (sympy) output is a parameter of the model; the hypothesis RowEquiv of the '
+                   'rref theorems is checked exactly per instance; model vs real f compared in Float at 1e-9 of the row scale',
                    'LinRel: chempy accumulates element totals in a Python float, exact model compared at 1e-9 of the row scale; '
                    'Log: Lean Float vs numpy at 1e-9 of the row scale',
                    'NumSysLinTanh.f raises TypeError on the pinned tree (min_ arity) and is not modelled')
+    clauses_without_theorem = (
+        'the external row reduction itself (sympy Matrix.rref via pyneqsys.linear_rref) is not modelled: the rref theorems assume '
+        'RowEquiv between its input and output; that hypothesis, the independence of the returned rows and hence '
+        '"number of equilibrium equations = rank(A | ln K)", "number of conservation equations = rank(B | B c0)" are checked per '
+        'generated instance only (exact rational arithmetic, logs in coordinates over {ln p}); for dependent reactions with '
+        'INCONSISTENT constants (one K violated) the reducer row (0…0|1) is an irrational multiple and only the zero/non-zero '
+        'behaviour is checked',
+        'reading of the count clause: with rref_equil=True the equilibrium block has rank(A | ln K) equations, i.e. fewer than nr '
+        'for linearly dependent reactions ("independent equations after reduction"); the property text says "number of reactions" — '
+        'recorded as a deviation of the text, theorem dependent_reaction_adds_no_equation shows no information is lost',
+        'that the call returns what the model says in the rref configurations is a Float/tolerance correspondence (1e-9 of the row '
+        'scale) at planted states with concentrations in [0.1, 10], not an exact one',
+        'NumSysLinTanh (named in the anchors) raises TypeError for every input — open known finding, no theorem',
+        'new_eq_params=False, _NumSysLinNegPenalty, non-integer stoichiometric coefficients, composition=None: not modelled, not sampled',
+        'Balanced (B nu^T = 0) is a hypothesis of extent_preserves_totals; that the constructor check_balance establishes it is checked '
+        'by the structure oracle per instance (C05 owns the theorem)',
+        'that EqSystem.root builds params = init_concs ++ [rxn.param] is tied by correspondence (captured with a stand-in solver) to '
+        'the model function solverParams; lin_zero_iff_reaction_constants is a theorem about that model function',
+    )
     anchors = (('chempy/_eqsys.py', '_NumSys'), ('chempy/_eqsys.py', 'NumSysLin'), ('chempy/_eqsys.py', 'NumSysLog'),
                ('chempy/_eqsys.py', 'NumSysSquare'), ('chempy/_eqsys.py', 'NumSysLinRel'),
                ('chempy/equilibria.py', 'EqSystem.eq_constants'), ('chempy/equilibria.py', 'EqSystem.stoichs_constants'),
                ('chempy/equilibria.py', 'EqSystem.equilibrium_quotients'), ('chempy/equilibria.py', 'EqSystem.composition_conservation'),
-               ('chempy/equilibria.py', 'EqSystem.non_precip_rids'), ('chempy/equilibria.py', 'EqSystem.phase_transfer_reaction_idxs'),
+               ('chempy/equilibria.py', 'EqSystem.non_precip_rids'), ('chempy/equilibria.py', 'EqSystem.root'), ('chempy/equilibria.py', 'EqSystem.phase_transfer_reaction_idxs'),
                ('chempy/reactionsystem.py', 'ReactionSystem.stoichs'), ('chempy/reactionsystem.py', 'ReactionSystem.composition_balance_vectors'),
                ('chempy/reactionsystem.py', 'ReactionSystem.upper_conc_bounds'),
                ('chempy/chemistry.py', 'equilibrium_quotient'), ('chempy/chemistry.py', 'Reaction._xprecipitate_stoich'),
@@ -365,13 +446,14 @@ class C07(Property):
             return F(rng.randint(1, 60))
         return F(rng.randint(1, 9999), 10 ** rng.randint(0, 12))
 
-    def _planted(self, rng, sysspec, form, kind):
+    def _planted(self, rng, sysspec, form, kind, narrow=None):
         """(y, params, info) for a planted state"""
         N = net_matrix(sysspec)
         ns, nr = len(sysspec['species']), len(N)
-        narrow = form in ('linrel', 'log')
+        if narrow is None:
+            narrow = form in ('linrel', 'log')
         if form == 'square':
-            ys = [self._conc(rng, False) for _ in range(ns)]
+            ys = [self._conc(rng, narrow) for _ in range(ns)]
             if rng.random() < 0.3:
                 ys = [-v if rng.random() < 0.3 else v for v in ys]
             c = [v * v for v in ys]
@@ -450,6 +532,10 @@ class C07(Property):
             cases.append({'op': 'structure', 'sys': spec, 'sys_kind': es_kind,
                           'concs': [rj(self._conc(rng, False)) for _ in range(ns)],
                           'init': [rj(self._conc(rng, False)) for _ in range(ns)]})
+            if rng.random() < 0.5:
+                cases.append({'op': 'solver', 'sys': spec, 'sys_kind': es_kind,
+                              'init': [rj(self._conc(rng, True)) for _ in range(ns)],
+                              'Ks': [rj(F(rng.randint(1, 4096), 2 ** rng.randint(0, 20))) for _ in range(nr)]})
             for form in ('lin', 'square', 'linrel', 'log'):
                 kinds = ['eq', rng.choice(['viol_q', 'viol_total', 'viol_conc'])]
                 if form in ('lin', 'square') and rng.random() < 0.6:
@@ -464,13 +550,16 @@ class C07(Property):
                         info['kind'] = 'eq'
                     cases.append({'op': 'f', 'form': form, 'kind': info['kind'], 'sys': spec, 'sys_kind': es_kind,
                                   'precipitates': [], 'y': [rj(v) for v in y], 'params': [rj(v) for v in p]})
-            if rng.random() < (0.25 if tier == 'quick' else 0.12) and ns <= 7 and nr <= 4:
-                for kind in ('eq', rng.choice(['viol_q', 'viol_total', 'viol_conc'])):
-                    y, p, info = self._planted(rng, spec, 'lin', kind)
+            if rng.random() < (0.6 if tier == 'quick' else 0.3) and ns <= 7 and nr <= 4:
+                # every formulation x every reduction configuration, at a planted equilibrium and at a planted violation
+                forms = rng.sample(['lin', 'log', 'square', 'linrel'], 3)
+                for kind, form in (('eq', forms[0]), ('eq', forms[1]), (rng.choice(['viol_q', 'viol_total', 'viol_conc']), forms[2])):
+                    y, p, info = self._planted(rng, spec, form, kind, narrow=True)   # the model side is Float: no overflow
                     if info['kind'] == 'viol_q' and 'i' not in info:
                         continue
-                    cases.append({'op': 'rref', 'form': rng.choice(['lin', 'log']), 'kind': info['kind'], 'sys': spec, 'sys_kind': es_kind,
-                                  'rref_equil': rng.random() < 0.6, 'rref_preserv': rng.random() < 0.6,
+                    re_, rp_ = rng.choice([(True, False), (False, True), (True, True)])
+                    cases.append({'op': 'rref', 'form': form, 'kind': info['kind'], 'sys': spec, 'sys_kind': es_kind,
+                                  'rref_equil': re_, 'rref_preserv': rp_,
                                   'y': [rj(v) for v in y], 'params': [rj(v) for v in p]})
             if rng.random() < 0.05:
                 y, p, info = self._planted(rng, spec, 'lin', 'eq')
@@ -486,7 +575,61 @@ class C07(Property):
             return None
         return [a / b for a, b in zip(c, m)]
 
+    def _rref_inputs(self, c, es):
+        """exact sympy arguments of the real call for an `rref` case: (y, params, state) or None"""
+        import sympy as sp
+        R = lambda v: sp.Rational(F(v).numerator, F(v).denominator)
+        y = [unrj(v) for v in c['y']]
+        p = [unrj(v) for v in c['params']]
+        form = c['form']
+        state = [v * v for v in y] if form == 'square' else y
+        if any(v <= 0 for v in state) or any(k <= 0 for k in p[es.ns:]):
+            return None
+        if form == 'log':
+            ys = [sp.log(R(v)) for v in state]
+        elif form == 'linrel':
+            yy = self._linrel_y(es, state, p)
+            if yy is None:
+                return None
+            ys = [R(v) for v in yy]
+        else:
+            ys = [R(v) for v in y]
+        return ys, [R(v) for v in p], state
+
+    def _model_case_rref(self, c):
+        """the reducer (sympy, external) is run here on what chempy hands to it; its output is an INPUT of the model"""
+        import sympy as sp
+        from pyneqsys.symbolic import linear_rref
+        es = build(c['sys'])
+        if has_other_phase(es) or es.nr == 0:
+            return None
+        inp = self._rref_inputs(c, es)
+        if inp is None:
+            return None
+        ys, ps, state = inp
+        ns = es.ns
+        fl = lambda v: float(sp.N(v, 30))
+        redE = {'rA': [], 'rb': []}
+        redP = {'rA': [], 'rb': []}
+        if c['rref_equil']:
+            rA, rb = linear_rref(es.stoichs(), [sp.log(k) for k in ps[ns:]])
+            redE = {'rA': [[fbits(fl(rA[i, j])) for j in range(rA.cols)] for i in range(rA.rows)], 'rb': [fbits(fl(v)) for v in rb]}
+        if c['rref_preserv']:
+            B, _ = es.composition_balance_vectors()
+            b = [sum(sp.Integer(x) * v for x, v in zip(row, ps[:ns])) for row in B]
+            rA, rb = linear_rref(B, b)
+            redP = {'rA': [[fbits(fl(rA[i, j])) for j in range(rA.cols)] for i in range(rA.rows)], 'rb': [fbits(fl(v)) for v in rb]}
+        NS = numsys(c['form'])
+        return {'op': 'cfg_f', 'form': c['form'], 'sys': encode(es), 'src': c['sys'], 'precipitates': [],
+                'small': fbits(NS.small), 'rref_equil': bool(c['rref_equil']), 'rref_preserv': bool(c['rref_preserv']),
+                'redE': redE, 'redP': redP, 'y': [fbits(fl(v)) for v in ys], 'params': [fbits(fl(v)) for v in ps],
+                'case': {k: c[k] for k in ('form', 'y', 'params', 'rref_equil', 'rref_preserv')}}
+
     def model_case(self, c):
+        if c['op'] == 'rref':
+            return self._model_case_rref(c)
+        if c['op'] == 'solver':
+            return {'op': 'solver_params', 'init': c['init'], 'rxn_params': c['Ks'], 'src': c['sys']}
         if c['op'] not in ('f', 'structure'):
             return None
         es = build(c['sys'])
@@ -499,9 +642,12 @@ class C07(Property):
         y = [unrj(v) for v in c['y']]
         p = [unrj(v) for v in c['params']]
         if form == 'linrel':
-            y = self._linrel_y(es, y, p)
-            if y is None:
+            yy = self._linrel_y(es, y, p)
+            if yy is None and any(v is None for v in upper_bounds(es, p[:es.ns])):
+                yy = y            # a charge-only species: Python's bound is inf, the model answers "inf" (side condition of linrel_zero_iff)
+            elif yy is None:
                 return None
+            y = yy
         small = F(NS.small)
         mc = {'op': form + '_f', 'sys': enc, 'src': c['sys'], 'precipitates': c['precipitates']}
         if form == 'log':
@@ -515,9 +661,24 @@ class C07(Property):
     # ------------------------------------------------------------------------- real code
     def impl(self, mc):
         op = mc['op']
+        if op == 'solver_params':
+            try:
+                es2 = build(mc['src'], [unrj(v) for v in mc['rxn_params']])
+                return 'floats:' + json.dumps(captured_solver_params(es2, [unrj(v) for v in mc['init']]))
+            except Exception as e:
+                return exc_name(e)
         es = build(mc['src'])
         if op == 'multi':
             return self._impl_multi(es, mc)
+        if op == 'cfg_f':
+            import sympy as sp
+            cc = dict(mc['case'])
+            ys, ps, _ = self._rref_inputs(cc, es)
+            try:
+                r = numsys(cc['form'])(es, backend=sp, rref_equil=cc['rref_equil'], rref_preserv=cc['rref_preserv']).f(ys, ps)
+                return 'floats:' + json.dumps([float(sp.N(v, 30)) for v in r])
+            except Exception as e:
+                return exc_name(e)
         form = op[:-2]
         NS = numsys(form)
         ns_obj = NS(es, precipitates=tuple(mc['precipitates']))
@@ -527,7 +688,10 @@ class C07(Property):
                 return 'floats:' + json.dumps([float(v) for v in r])
             r = ns_obj.f([unrj(v) for v in mc['y']], [unrj(v) for v in mc['params']])
             if form == 'linrel' or any(isinstance(v, float) for v in r):
-                return 'floats:' + json.dumps([float(v) for v in r])   # Square: `small` = 1e-35 is a float
+                fl = [float(v) for v in r]
+                if form == 'linrel' and any(math.isinf(v) or math.isnan(v) for v in fl):
+                    return 'inf'          # an infinite upper bound (charge-only species) poisons the residual
+                return 'floats:' + json.dumps(fl)   # Square: `small` = 1e-35 is a float
             return show_rat_list(r)
         except Exception as e:
             return exc_name(e)
@@ -564,6 +728,14 @@ class C07(Property):
     def same(self, mc, io, mo):
         if mc['op'] == 'multi':
             return self._same_multi(mc, io, mo)
+        if mc['op'] == 'cfg_f':
+            return self._same_cfg(mc, io, mo)
+        if mc['op'] == 'solver_params':
+            try:
+                a, b = json.loads(io[7:]), parse_rat_list(mo)
+                return io.startswith('floats:') and len(a) == len(b) and all(close(x, z, 1e-15, 0.0) for x, z in zip(a, b))
+            except Exception:
+                return False
         form = mc['op'][:-2]
         if not io.startswith('floats:'):
             return io == mo
@@ -588,6 +760,57 @@ class C07(Property):
                     return False
                 continue
             if abs(x - y) > self.float_tol * (s + max(abs(x), abs(y))):
+                return False
+        return True
+
+    def _same_cfg(self, mc, io, mo):
+        if not io.startswith('floats:'):
+            return io == mo
+        try:
+            a = json.loads(io[7:])
+            b = [bits2f(x) for x in json.loads(mo)]
+        except Exception:
+            return False
+        if len(a) != len(b):
+            return False
+        es = build(mc['src'])
+        ns, nr = es.ns, es.nr
+        form = mc['form']
+        y = [bits2f(v) for v in mc['y']]
+        p = [bits2f(v) for v in mc['params']]
+        if form == 'log':
+            c = [math.exp(v) for v in y]
+        elif form == 'square':
+            c = [v * v for v in y]
+        elif form == 'linrel':
+            m = upper_bounds(es, [unrj(v) for v in mc['case']['params']][:ns])
+            c = [float(mm) * v for mm, v in zip(m, y)]
+        else:
+            c = y
+        lc = [abs(math.log(v)) for v in c]
+        keys, B = comp_matrix(es)
+        if mc['rref_equil']:
+            rowsE = [[bits2f(x) for x in row] for row in mc['redE']['rA']]
+            rbE = [bits2f(x) for x in mc['redE']['rb']]
+        else:
+            rowsE = [[float(x) for x in row] for row in net_matrix(mc['src'])]
+            rbE = [math.log(k) for k in p[ns:]]
+        scE = [1.0 + sum(abs(x) * l for x, l in zip(row, lc)) + abs(t) for row, t in zip(rowsE, rbE)]
+        if mc['rref_preserv']:
+            rowsP = [[bits2f(x) for x in row] for row in mc['redP']['rA']]
+            scP = [1.0 + sum(abs(x) * abs(v) for x, v in zip(row, c)) + abs(bits2f(t)) for row, t in zip(rowsP, mc['redP']['rb'])]
+        else:
+            scP = [1.0 + sum(abs(x) * abs(v) for x, v in zip(row, c)) + sum(abs(x) * abs(v) for x, v in zip(row, p[:ns])) for row in B]
+        if len(scE) + len(scP) != len(a):
+            return False
+        for i, (x, z) in enumerate(zip(a, b)):
+            if math.isnan(x) or math.isnan(z) or math.isinf(x) or math.isinf(z):
+                return False
+            if i < len(scE):
+                tol = 1e-9 * scE[i] * ((1.0 + max(abs(x), abs(z))) if form != 'log' else 1.0)
+            else:
+                tol = 1e-9 * scP[i - len(scE)]
+            if abs(x - z) > tol:
                 return False
         return True
 
@@ -661,6 +884,19 @@ class C07(Property):
             return self._oracle_structure(c)
         if op == 'lintanh':
             return self._oracle_lintanh(c)
+        if op == 'solver':
+            Ks = [unrj(v) for v in c['Ks']]
+            init = [unrj(v) for v in c['init']]
+            es2 = build(c['sys'], Ks)
+            if has_other_phase(es2):
+                return None
+            if list(es2.eq_constants()) != Ks:
+                return 'eq_constants() = %r but the reactions carry %r' % (es2.eq_constants(), Ks)
+            got = captured_solver_params(es2, init)
+            want = [float(v) for v in init + Ks]
+            if got != want:
+                return 'root() hands params %r to the solver, expected init_concs ++ [rxn.param] = %r' % (got, want)
+            return None
         if op not in ('f', 'rref'):
             return None
         if c.get('kind') == 'precip':
@@ -677,7 +913,7 @@ class C07(Property):
         p = [unrj(v) for v in c['params']]
         c0, K = p[:ns], p[ns:]
         form = c['form']
-        state = [v * v for v in y] if (form == 'square' and op == 'f') else y
+        state = [v * v for v in y] if form == 'square' else y
         # what the property says, computed here
         if any(x == 0 and n < 0 for row in N for x, n in zip(state, row)):
             return None                      # quotient undefined; the real code raises ZeroDivisionError
@@ -741,12 +977,26 @@ class C07(Property):
         if any(v <= 0 for v in state) or any(k <= 0 for k in p[es.ns:]):
             return None
         nsys = NS(es, backend=sp, rref_equil=c['rref_equil'], rref_preserv=c['rref_preserv'])
-        y = [sp.log(R(v)) for v in state] if c['form'] == 'log' else [R(v) for v in state]
+        form = c['form']
+        if form == 'log':
+            y = [sp.log(R(v)) for v in state]
+        elif form == 'square':
+            y = [R(unrj(v)) for v in c['y']]                 # the variables are the (signed) square roots
+        elif form == 'linrel':
+            yy = self._linrel_y(es, state, p)
+            if yy is None:
+                return None
+            y = [R(v) for v in yy]
+        else:
+            y = [R(v) for v in state]
         try:
             r = nsys.f(y, [R(v) for v in p])
             vals = [abs(complex(sp.N(v, 40))) for v in r]
         except Exception as e:
             return '%s.f(rref_equil=%s, rref_preserv=%s) raised %s: %s' % (NS.__name__, c['rref_equil'], c['rref_preserv'], exc_name(e), str(e)[:100])
+        msg = self._check_row_equiv(c, es, N, B, p)
+        if msg:
+            return msg
         nr = es.nr
         rankA = sp.Matrix(N).rank() if N else 0
         rankB = sp.Matrix(B).rank() if B else 0
@@ -759,17 +1009,60 @@ class C07(Property):
             return '%s.f(rref_equil=%s, rref_preserv=%s) has %d equations, expected %d + %d' % (
                 NS.__name__, c['rref_equil'], c['rref_preserv'], len(r), rankA if c['rref_equil'] else nr, n_pr)
         is_eq = all(want_q) and all(want_t)
-        zero = all(v < 1e-25 for v in vals)
+        thr = 1e-25
+        if form == 'linrel':       # upper_conc_bounds accumulates in a Python float: 15-16 digits only
+            mb = max([abs(b) for row in B for b in row] + [1])
+            thr = 1e-9 * (1.0 + mb * float(sum(abs(v) for v in state) + sum(abs(v) for v in p[:es.ns])))
+        zero = all(v < thr for v in vals)
         if is_eq and not zero:
             return '%s.f(rref...) non-zero (%r) at an equilibrium state' % (NS.__name__, max(vals))
         if not is_eq and zero:
             return '%s.f(rref...) is zero at a state violating %s' % (NS.__name__, c['kind'])
         if not is_eq:
             # block-wise: a violated quotient shows in the equilibrium block, a violated total in the conservation block
-            if not all(want_q) and all(v < 1e-25 for v in vals[:n_eq]):
+            if not all(want_q) and all(v < thr for v in vals[:n_eq]):
                 return '%s.f(rref...) equilibrium block zero although a quotient is violated' % NS.__name__
-            if not all(want_t) and all(v < 1e-25 for v in vals[n_eq:]):
+            if not all(want_t) and all(v < thr for v in vals[n_eq:]):
                 return '%s.f(rref...) conservation block zero although a total is violated' % NS.__name__
+        return None
+
+    def _check_row_equiv(self, c, es, N, B, p):
+        """the hypothesis `RowEquiv` of the rref theorems, checked exactly on what the real code produced:
+        rows of (A' | ln K') and of (A | ln K) span the same space (logs in coordinates over {log prime}),
+        the reduced rows are independent; likewise for the conservation system (B | B c0)"""
+        import sympy as sp
+        from pyneqsys.symbolic import linear_rref
+        R = lambda v: sp.Rational(F(v).numerator, F(v).denominator)
+        ns = es.ns
+        if c['rref_equil']:
+            K = [R(k) for k in p[ns:]]
+            A2, K2 = es.stoichs_constants(K, True, backend=sp)
+            if len(A2) != len(K2):
+                return 'stoichs_constants(rref=True) returned %d rows but %d constants' % (len(A2), len(K2))
+            v1 = [log_vector(sp.log(k)) for k in K]
+            v2 = [log_vector(sp.log(k)) for k in K2]
+            inconsistent = c['kind'] == 'viol_q' and sp.Matrix(N).rank() < len(N)
+            if inconsistent:
+                # dependent reactions with inconsistent constants: rref normalises the row (0 … 0 | δ) to (0 … 0 | 1), an
+                # IRRATIONAL multiple (δ is a log); row-equivalent over R but not expressible in rational coordinates
+                v1 = v2 = None
+            elif any(v is None for v in v1 + v2):
+                return 'stoichs_constants(rref=True): a reduced constant is not a rational power product of the given constants'
+            if v1 is not None:
+                primes = sorted({q for v in v1 + v2 for q in v})
+                M1 = [[sp.Integer(x) for x in row] + [v.get(q, 0) for q in primes] for row, v in zip(N, v1)]
+                M2 = [[sp.Rational(x) for x in row] + [v.get(q, 0) for q in primes] for row, v in zip(A2, v2)]
+                if not same_row_space(M1, M2):
+                    return "stoichs_constants(rref=True): the reduced system (A', ln K') is not row-equivalent to (A, ln K)"
+                if M2 and sp.Matrix(M2).rank() != len(M2):
+                    return 'stoichs_constants(rref=True): the reduced rows are linearly dependent'
+        if c['rref_preserv'] and B:
+            b = [sum(sp.Integer(x) * R(v) for x, v in zip(row, p[:ns])) for row in B]
+            rA, rb = linear_rref(B, b)
+            M1 = [[sp.Integer(x) for x in row] + [t] for row, t in zip(B, b)]
+            M2 = [[rA[i, j] for j in range(rA.cols)] + [rb[i]] for i in range(rA.rows)]
+            if not same_row_space(M1, M2) or (M2 and sp.Matrix(M2).rank() != len(M2)):
+                return 'linear_rref(B, B c0) is not a row-equivalent independent system'
         return None
 
     def _oracle_structure(self, c):
